@@ -14,6 +14,7 @@ from __future__ import annotations
 
 import copy
 import glob
+import json
 import os
 import pickle
 import shutil
@@ -1088,6 +1089,8 @@ def execute_real_death(scenario: dict, workdir: str, keep_events: bool = False) 
     a, k = scenario['rd']['args'], scenario['rd']['k']
     ref = run.ref(0, a)
     helper = os.path.join(os.path.dirname(os.path.dirname(os.path.abspath(__file__))), 'sim', 'real_death_child.py')
+    with REAL_OPEN('dataset.json', 'w') as f:
+        json.dump(d, f)
     violation = None
     env = dict(os.environ)
     try:
